@@ -147,6 +147,13 @@ func checkC11WSDirty(c *Ctx, sw *ScopeWS, tag string, r *Rng, dirtyRel string) {
 		srv.Notify("workspace/didChangeConfiguration", map[string]interface{}{"settings": map[string]interface{}{}})
 		srv.Fence()
 		c.Count("workspaces_with_reference_include_definition_off", 1)
+	case 2:
+		// the cap on the number of locations find-references shows is a display option of that request; rename edits
+		// every occurrence whatever it is set to
+		n := 1 + r.Fork(0x6d6178).Intn(3)
+		srv.Notify("workspace/didChangeConfiguration", map[string]interface{}{"settings": map[string]interface{}{"luahelper": map[string]interface{}{"base": map[string]interface{}{"ReferenceIncudeDefine": true, "ReferenceMaxNum": n}}}})
+		srv.Fence()
+		c.Count("workspaces_with_small_reference_max_num", 1)
 	}
 	var baseView map[string][]Diag
 	sampled := false
